@@ -108,6 +108,7 @@ def stepR (r : Router.Router) (ws : List String) : Router.Router × String :=
   match ws with
   | ["reset", _] => ({}, "")
   | ["clone", _] => (r, "")      -- `Router::clone`: same routes, mounts and middleware
+  | ["observe", _, _threads] => (r, "")   -- concurrent `get` / `execution` on a snapshot: no state change
   | ["mw", _, n] => (r.apply F (.middleware (natOf n)), "")
   | ["route", idx, p, n] =>
     match strOfHex p with
@@ -152,7 +153,7 @@ def stepR (r : Router.Router) (ws : List String) : Router.Router × String :=
     | some p => (r, idx ++ " " ++ showSegs (jsonPointerParse p))
     | none => (r, idx ++ " bad-op")
   | ["twin", idx, kind, blocking, nmw, bfmt, _body, hints, cres, ccode, _order, _voff, _qfmt, query, _rid,
-     _notify, _ver, _reserved, _reqec, _trfmt, cb, tpath, _srv, _decoys] =>
+     _notify, _ver, _reserved, _reqec, _trfmt, cb, tpath, _srv, _decoys, _io] =>
     match gateOf kind with
     | none => (r, idx ++ " bad-op")
     | some g =>
@@ -187,6 +188,11 @@ def step (st : St) (ws : List String) : St × String :=
   match ws with
   | ["dreset", _, lockKind] => ({ st with store := [], lockKind := natOf lockKind, poisoned := false, lockFails := false }, "")
   | ["dlockfail", _, b] => ({ st with lockFails := (b = "1") }, "")
+  | ["dconc", idx, _root, _threads, final] =>
+    -- concurrent readers while a writer stores a sequence of values at /a; afterwards /a holds the last one
+    match bytesOfHex final with
+    | some v => ({ st with store := st.store.set ["a".toList] v }, idx ++ " ok " ++ hexOfBytes v)
+    | none => (st, idx ++ " bad-op")
   | ["dstruct", idx, root, p, bfmt, body, canon, hints, whole] =>
     match strOfHex root, strOfHex p, bytesOfHex body, bytesOfHex canon with
     | some root, some p, some body, some canon =>
